@@ -174,6 +174,23 @@ func runPropertyCheck(e *Engine, prop, tier string, seed int, t0 time.Time) int 
 		}
 		viols = append(viols, viol{name: o.Name, detail: det + "\n" + o.Model, replay: o.SMTFile})
 	}
+	// the slowest discharged obligations (flakiness watch-list)
+	type slow struct {
+		n string
+		t float64
+		s string
+	}
+	var slows []slow
+	for _, o := range rs.obls {
+		if !o.ExpectSat {
+			slows = append(slows, slow{o.Name, o.TimeS, o.Solver})
+		}
+	}
+	sort.Slice(slows, func(i, j int) bool { return slows[i].t > slows[j].t })
+	var slowOut []map[string]interface{}
+	for i := 0; i < len(slows) && i < 5; i++ {
+		slowOut = append(slowOut, map[string]interface{}{"obligation": slows[i].n, "time_s": round3(slows[i].t), "solver": slows[i].s})
+	}
 	for _, x := range extras {
 		if x.Bounded {
 			continue
@@ -262,6 +279,7 @@ func runPropertyCheck(e *Engine, prop, tier string, seed int, t0 time.Time) int 
 		"vacuity_guards":           nGuards,
 		"known_findings_matched":   known,
 		"samples":                  samples,
+		"slowest":                  slowOut,
 		"contract_files":           e.cs.Files,
 		"spec_files":               e.spec.files,
 	}
